@@ -166,9 +166,116 @@ def rn_audit(lines):
         if bad:
             findings.append({'property': 'C06', 'key': {'kind': 'rn_exact', 'group': l.grp, 'op': l.op, 'prec': l.prec, 'cxx_type': l.tag},
                              'err': None, 'tol': 0, 'what': f'{l.tag} as LieGroup: {l.op} is not the additive-group value ({bad})',
-                             'line': l.raw[:4000]})
+                             'line': trim_line(l.raw)})
     return findings, counts, sign_only
 
+
+
+# ----------------------------------------------------------------------------- attribution of a Bundle T1 break
+# A Bundle line disagrees with the model.  C06 is about the ARRANGEMENT; the leaf formulas belong to
+# C01-C05.  The break is attributed to a leaf ("inherited") when BOTH sides are provably the
+# arrangement of their own leaf results for this very input: the implementation by the bitwise
+# part-by-part audit, the model by recomputing every leaf with the driver and assembling the
+# tuple / block-diagonal / Hessian placement here.  Otherwise it stays a C06 correspondence break.
+IN_KINDS = {'identity': [], 'compose': ['rep', 'rep'], 'inverse': ['rep'], 'log': ['rep'], 'matrix': ['rep'], 'Ad': ['rep'],
+            'exp': ['dof'], 'hat': ['dof'], 'ad': ['dof'], 'dr_exp': ['dof'], 'dr_expinv': ['dof'], 'dl_exp': ['dof'],
+            'dl_expinv': ['dof'], 'd2r_exp': ['dof'], 'd2r_expinv': ['dof'], 'd2l_exp': ['dof'], 'd2l_expinv': ['dof'],
+            'rplus': ['rep', 'dof'], 'rminus': ['rep', 'rep'], 'bracket': ['dof', 'dof'], 'vee': ['mat']}
+OUT_KIND = {'identity': 'rep', 'compose': 'rep', 'inverse': 'rep', 'exp': 'rep', 'rplus': 'rep', 'log': 'dof', 'rminus': 'dof',
+            'bracket': 'dof', 'vee': 'dof', 'matrix': 'dimblk', 'hat': 'dimblk', 'Ad': 'dofblk', 'ad': 'dofblk', 'dr_exp': 'dofblk',
+            'dr_expinv': 'dofblk', 'dl_exp': 'dofblk', 'dl_expinv': 'dofblk', 'd2r_exp': 'hess', 'd2r_expinv': 'hess',
+            'd2l_exp': 'hess', 'd2l_expinv': 'hess'}
+
+
+def leaf_sizes(p):
+    rep, dof, _ = lieplug.prim_sizes(p)
+    if p.startswith('SEK'):
+        dim = 3 + int(p[3:])
+    elif p.startswith('T'):
+        dim = int(p[1:]) + 1
+    else:
+        dim = {'SO2': 2, 'SO3': 3, 'SE2': 3, 'SE3': 4, 'C1': 2, 'GAL': 5}[p]
+    return {'rep': rep, 'dof': dof, 'dim': dim}
+
+
+def leaf_requests(l):
+    """[(leaf name, request line, sizes, offsets)] for the leaves of the group of line l, or None"""
+    if l.op not in IN_KINDS:
+        return None
+    leaves = lieplug.flat_prims(lieplug.parse_desc(l.grp))
+    sz = [leaf_sizes(p) for p in leaves]
+    tot = {k: sum(s[k] for s in sz) for k in ('rep', 'dof', 'dim')}
+    kinds = IN_KINDS[l.op]
+    need = sum(tot['dim'] ** 2 if k == 'mat' else tot[k] for k in kinds)
+    if need != len(l.ins):
+        return None
+    off = {'rep': 0, 'dof': 0, 'dim': 0}
+    out = []
+    for p, s in zip(leaves, sz):
+        words, base = [], 0
+        for k in kinds:
+            if k == 'mat':
+                D = tot['dim']
+                for r in range(s['dim']):
+                    for c in range(s['dim']):
+                        words.append(l.ins[base + (off['dim'] + r) * D + off['dim'] + c])
+                base += D * D
+            else:
+                words += l.ins[base + off[k]: base + off[k] + s[k]]
+                base += tot[k]
+        out.append((p, ' '.join([l.op, p, l.prec] + words), s, dict(off)))
+        for k in off:
+            off[k] += s[k]
+    return out, tot
+
+
+def assemble(l, leafs, tot, replies):
+    """Bundle-layout values assembled from the leaf replies (list of float), or None"""
+    kind = OUT_KIND[l.op]
+    p = l.prec
+    if kind in ('rep', 'dof'):
+        vals = []
+        for (name, req, s, off), rep in zip(leafs, replies):
+            w = rep.split()
+            if len(w) != s[kind]:
+                return None
+            vals += [dec(x, p) for x in w]
+        return vals
+    if kind in ('dimblk', 'dofblk'):
+        k = 'dim' if kind == 'dimblk' else 'dof'
+        D = tot[k]
+        vals = [0.0] * (D * D)
+        for (name, req, s, off), rep in zip(leafs, replies):
+            w = rep.split()
+            d = s[k]
+            if len(w) != d * d:
+                return None
+            for r in range(d):
+                for c in range(d):
+                    vals[(off[k] + r) * D + off[k] + c] = dec(w[r * d + c], p)
+        return vals
+    D = tot['dof']
+    vals = [0.0] * (D * D * D)
+    for (name, req, s, off), rep in zip(leafs, replies):
+        w = rep.split()
+        d, o = s['dof'], off['dof']
+        if len(w) != d * d * d:
+            return None
+        for r in range(d):
+            for j in range(d):
+                for k in range(d):
+                    vals[(o + r) * D * D + D * (o + j) + o + k] = dec(w[r * d * d + d * j + k], p)
+    return vals
+
+
+def trim_line(raw, max_out_words=48):
+    """keep the full request (replayable) and the tag, shorten the output words"""
+    body, sep, tag = raw.partition(' # ')
+    req, bar, out = body.partition(' |')
+    w = out.split()
+    if len(w) > max_out_words:
+        out = ' ' + ' '.join(w[:max_out_words]) + f' …(+{len(w) - max_out_words}w)'
+    return req + bar + out + (sep + tag if sep else '')
 
 # ----------------------------------------------------------------------------- layout plugin (other builder)
 def load_layout():
@@ -275,17 +382,18 @@ class C06:
                 findings.append({'property': 'C06', 'key': {'kind': 'bundle_part', 'type': a.grp, 'op': a.op, 'prec': a.prec},
                                  'err': a.rel if a.nval else float(a.nmis), 'tol': 0,
                                  'what': f'Bundle {a.op} is not the arrangement of the part results: {why}; first flat index {a.first}',
-                                 'line': a.raw[:6000], 'stratum': a.tag})
+                                 'line': a.raw, 'stratum': a.tag})
 
         # (2) T1: Bundle results (bundle.cpp + lie.cpp families 3-5) against the Lean model
         t1 = vlib.t1_compare(bun + lie, tol_ulp=64.0, exact_ops=EXACT_OPS, rng_seed=ctx['seed']) if (bun or lie) else {'stats': {}, 'breaks': []}
         # (3) T1: vectors / scalars against Tn.model n, every op at 0 ulp
         t1v = vlib.t1_compare(vec, tol_ulp=0.0, exact_ops=(), rng_seed=ctx['seed'], sens_variants=1, sens_factor=0.0) if vec else {'stats': {}, 'breaks': []}
-        for name, res in (('Bundle', t1), ('Rn/scalar', t1v)):
+        real_breaks, inherited = self.attribute(t1['breaks'], aud)
+        for name, brk in (('Bundle', real_breaks), ('Rn/scalar', t1v['breaks'])):
             by = {}
-            for b in res['breaks']:
+            for b in brk:
                 l = Line(b['line'])
-                b = dict(b, line=b['line'][:6000], model=str(b.get('model'))[:3000])
+                b = dict(b, line=trim_line(b['line']), model=' '.join(str(b.get('model')).split()[:48]))
                 by.setdefault(f'{l.op}|{l.grp}|{l.prec}', []).append(b)
             for k, bs in by.items():
                 broken.append({'what': 'correspondence', 'name': f'T1 {name} {k} (implementation vs Lean model)', 'count': len(bs), 'first': bs[0]})
@@ -328,7 +436,15 @@ class C06:
                               'per_type_core_ops': core,
                               'per_op': {op: sum(d[p].get(op, 0) for d in per_type.values() for p in d) for op in sorted({o for d in per_type.values() for p in d for o in d[p]})}},
                'strata_hits': strata,
-               't1_bundle': {'lines_bundle_cpp': len(bun), 'lines_lie_cpp_families_3_4_5': len(lie), 'breaks': len(t1['breaks']),
+               't1_bundle': {'lines_bundle_cpp': len(bun), 'lines_lie_cpp_families_3_4_5': len(lie), 'breaks': len(real_breaks),
+                             'disagreements_inherited_from_a_leaf': {
+                                 'count': len(inherited),
+                                 'meaning': 'model and implementation disagree beyond 64 ulp + conditioning, but for this very input the implementation is '
+                                            'bitwise the arrangement of its part results (audit) and the model is exactly the arrangement of its leaf results: '
+                                            'the disagreement is that of the leaf formula (C01-C05 correspondence), not of the Bundle',
+                                 'by_leaf_op_prec': {k: sum(1 for r in inherited if f"{r.get('leaf')}|{r['op']}|{r['prec']}" == k)
+                                                     for k in sorted({f"{r.get('leaf')}|{r['op']}|{r['prec']}" for r in inherited})},
+                                 'samples': inherited[:4]},
                              'groups': sorted({l.grp for l in bun + lie}), 'per_op': summarize(t1['stats'])},
                't1_rn_scalar': {'lines': len(vec), 'breaks': len(t1v['breaks']), 'tolerance_ulp': 0, 'per_op': summarize(t1v['stats']),
                                 'static_sizes': sorted({n for t, n in vec_sizes if t.startswith('Vec') and t != 'VecX'}),
@@ -338,6 +454,66 @@ class C06:
                                       'failing_lines': len(f4)},
                'traces_validated_against_impl': len(aud) + len(bun) + len(lie) + len(vec)}
         return {'coverage': cov, 'findings': findings, 'broken': broken}
+
+
+    def attribute(self, breaks, aud):
+        """split T1 breaks of Bundle lines into (C06 breaks, inherited-from-a-leaf records)"""
+        if not breaks:
+            return [], []
+        idx = {(a.op, a.grp, a.prec, tuple(a.ins)): a for a in aud}
+        lines = [Line(b['line']) for b in breaks]
+        # the implementation side: audit verdict for exactly this input (re-run it when the line came from lie.cpp)
+        missing = [i for i, l in enumerate(lines) if (l.op, l.grp, l.prec, tuple(l.ins)) not in idx and l.op in IN_KINDS]
+        if missing:
+            got, _ = self.eval_lines([' '.join(['bp_' + lines[i].op, lines[i].grp, lines[i].prec] + lines[i].ins) for i in missing])
+            for r in got:
+                if r.startswith('bp_'):
+                    a = AuditLine(r)
+                    idx[(a.op, a.grp, a.prec, tuple(a.ins))] = a
+        # the model side: every leaf through the driver
+        plans, reqs = [], []
+        for l in lines:
+            pl = leaf_requests(l) if (l.grp.startswith('B[') and l.op in OUT_KIND) else None
+            plans.append(pl)
+            if pl:
+                reqs += [r for (_, r, _, _) in pl[0]]
+        reps = vlib.run_driver(reqs) if reqs else []
+        real, inherited, k = [], [], 0
+        for b, l, pl in zip(breaks, lines, plans):
+            if not pl:
+                real.append(b)
+                continue
+            leafs, tot = pl
+            rr = reps[k:k + len(leafs)]
+            k += len(leafs)
+            a = idx.get((l.op, l.grp, l.prec, tuple(l.ins)))
+            impl_ok = a is not None and a.failed() is None
+            mw = str(b.get('model', '')).split()
+            model_ok, culprit = False, None
+            if not any(r.startswith('ERR') for r in rr) and not str(b.get('model', '')).startswith('ERR'):
+                asm = assemble(l, leafs, tot, rr)
+                if asm is not None and len(asm) == len(mw):
+                    mv = [dec(w, l.prec) for w in mw]
+                    model_ok = all((x == y) or (x != x and y != y) for x, y in zip(asm, mv))
+                    if model_ok and len(l.outs) == len(asm):
+                        iv = l.out_vals()
+                        worst = max(range(len(asm)), key=lambda i: abs(iv[i] - asm[i]) if iv[i] == iv[i] and asm[i] == asm[i] else float('inf'))
+                        # which leaf owns that entry
+                        kind = OUT_KIND[l.op]
+                        key = {'rep': 'rep', 'dof': 'dof', 'dimblk': 'dim', 'dofblk': 'dof', 'hess': 'dof'}[kind]
+                        D = tot[key]
+                        row = worst if kind in ('rep', 'dof') else (worst // D if kind != 'hess' else worst // (D * D))
+                        for (name, req, s, off) in leafs:
+                            if off[key] <= row < off[key] + s[key]:
+                                culprit = {'leaf': name, 'leaf_request': req[:600], 'impl': iv[worst], 'model': asm[worst]}
+            if impl_ok and model_ok:
+                rec = {'op': l.op, 'group': l.grp, 'prec': l.prec, 'err_ulp': b.get('err_ulp'), 'stratum': l.tag, 'line': trim_line(b['line'])}
+                if culprit:
+                    rec.update(culprit)
+                inherited.append(rec)
+            else:
+                real.append(dict(b, impl_is_arrangement_of_parts=impl_ok, model_is_arrangement_of_leaves=model_ok))
+        return real, inherited
 
     def with_layout(self, ctx, res, method='explore', *args):
         L = self.layout
@@ -359,7 +535,7 @@ class C06:
     # ------------------------------------------------------------------ entry points
     def explore(self, ctx):
         quick = ctx['tier'] == 'quick'
-        aud, std, lie = self.gen(ctx, 18 if quick else 90, 0 if quick else 1)
+        aud, std, lie = self.gen(ctx, 18 if quick else 150, 0 if quick else 1)
         return self.with_layout(ctx, self.check(ctx, aud, std, lie))
 
     def search(self, ctx, broken):
